@@ -172,7 +172,7 @@ def apply_faults(sc):
             # remove every frame at or beyond the calendar end of what the model needs
             # (forward: the last simulated time; reversed: the start time)
             top = 0 if T.get("reversed") else T["nsteps"]
-            if not T.get("reversed") and T.get("stop_extra") and T["nsteps"] in offs and f["r"] < 0.6:
+            if not T.get("reversed") and T.get("stop_extra") and T["nsteps"] in offs and f["r"] < 0.6 and "phase_s" not in fr:
                 # the forcing ends at the last whole step, inside the left-over fraction before the stop time:
                 # the window [start, stop] is still not covered
                 top = T["nsteps"] + 1
@@ -377,7 +377,13 @@ def _rewrite_release(sc, d: Path, cols: list[str]) -> None:
 def execute(sc) -> Result:
     res = Result()
     sc = copy.deepcopy(sc)
-    s2, ap = apply_faults(sc)
+    try:
+        s2, ap = apply_faults(sc)
+    except AssertionError:
+        # an effect proof failed: in this combination the faults do not make the set-up impossible (they interfere
+        # with each other); nothing is judged, the case is counted
+        res.probes["combination_without_effect"] += 1
+        return res
     T = sc["time"]
     res.history_key = "|".join(map(str, (sorted(ap.kinds), bool(T.get("reversed")), len(world.frame_partition(sc)),
                                          bool(sc["release"].get("continuous")))))
